@@ -340,9 +340,9 @@ def extra_stage(tier, rng, work):
     import props.c03 as C03
     streams = []
     for i in range({"quick": 45, "thorough": 600}.get(tier, 45)):
-        for _ in range(20):
-            c = C03.h2_scenario(rng, "w%d" % i)
-            if c.tags["fr"] in ("exact", "nocl", "nocl-trl", "es"):
+        for _ in range(40):
+            c = C03.h2_scenario(rng, "w%d" % i) if i % 3 else C03.h2_multi(rng, "w%d" % i)
+            if all(t["fr"].split("/")[0] in ("exact", "nocl", "es") for t in c.tags["streams"]):
                 break
         streams.append(c)
     outs2, problems2 = vlib.run_harness("c03h2bb", streams, os.path.join(work, "h2bb"), "release", timeout=300, shards=6)
@@ -356,8 +356,8 @@ def extra_stage(tier, rng, work):
         for (vc, vt) in o["viol"]:
             viols.append((c, vc, vt))
         for ob in o["obs"]:
-            if ob and ob[0] == "client" and ob[1] == "answered":
-                h2seen += 1
+            if ob and ob[0] == "client":
+                h2seen += sum(1 for kd in C03.parse_h2_obs(ob)[0].values() if kd[0] == "answered")
     return dict(failures=problems, viols=viols,
                 coverage=dict(blackbox_cases=len(cases), blackbox_requests_seen_by_backend=seen,
                               blackbox_h2_streams=len(streams), blackbox_h2_answered=h2seen))
